@@ -311,7 +311,16 @@ class SchemaBuilder(
     def collection(
         self, cls: Type[Collection], value_type: AnyType
     ) -> TypeFactory[GraphQLTp]:
-        return TypeFactory(lambda *_: graphql.GraphQLList(self.visit(value_type).type))
+        # the item type is visited lazily (it can be recursive through a resolver), but
+        # with the conversion of the position, as serialization does
+        conversion = self._conversion
+
+        def factory(*_) -> graphql.GraphQLList:
+            with context_setter(self):
+                self._conversion = conversion
+                return graphql.GraphQLList(self.visit(value_type).type)
+
+        return TypeFactory(factory)
 
     @cache_type
     def enum(self, cls: Type[Enum]) -> TypeFactory[GraphQLTp]:
